@@ -125,6 +125,7 @@ type gen struct {
 	term    int64 // highest term used in a NewTerm request
 	nextSid int
 	raced   bool // one NewTerm-vs-in-flight-request race per schedule (each costs a bounded wait)
+	raced2  bool // one generic handler race per schedule
 	pay     int64
 	plan    map[int64][3]int64 // term -> honest decision: kind (0 none,1 invalid,2 trunc), t, o
 	done    map[int64]bool     // term -> the follower's log has been brought in line (truncate done or not needed)
@@ -291,6 +292,32 @@ func (g *gen) openStream(t int64) {
 	g.h.doReplicateOpen(g.nextSid, t)
 }
 
+// afterRace: bookkeeping of the generator for the actions a race realised (from index n on)
+func (g *gen) afterRace(n int) {
+	h := g.h
+	for i := n; i < len(h.acts) && i < len(h.outs); i++ {
+		f := strings.Split(h.acts[i], ":")
+		ht, ho, ok := lastHeadOf(h.outs[i])
+		if !ok {
+			continue
+		}
+		switch f[0] {
+		case "NT":
+			t := atoi(f[1])
+			if _, known := h.terms[t]; !known {
+				g.electLeader(t, ht, ho)
+			}
+		case "TR":
+			t := atoi(f[1])
+			if p, okp := g.plan[t]; okp && p[0] == 2 && p[1] == atoi(f[2]) && p[2] == atoi(f[3]) {
+				g.done[t] = true
+			} else if ti := h.terms[t]; ti != nil {
+				ti.envOK = false
+			}
+		}
+	}
+}
+
 type choice struct {
 	w int
 	f func()
@@ -340,6 +367,42 @@ func (g *gen) step() {
 			}
 			h.doTruncate(t, ht, ho)
 		})
+		// one handler parked at a WAL call, another request delivered there
+		if !g.raced2 {
+			add(2, func() {
+				g.raced2 = true
+				nt := g.term + 2
+				sh := g.shadowCopy()
+				trunc := fmt.Sprintf("TR:%d:-1:-1", term)
+				if p, ok := g.plan[term]; ok && r.Chance(50) {
+					trunc = fmt.Sprintf("TR:%d:%d:%d", term, p[1], p[2])
+				} else if len(sh) >= 2 {
+					e := sh[len(sh)-2]
+					trunc = fmt.Sprintf("TR:%d:%d:%d", term, e.term, e.off)
+				}
+				app := ""
+				if len(recv) > 0 {
+					s0 := recv[0]
+					_, _, _, hd := g.curStatus()
+					if e, ok := g.leaderEntry(s0.term, hd+1); ok {
+						app = fmt.Sprintf("AP:%d:%d:%d:%d:-1", s0.sid, e.term, e.off, e.pay)
+					}
+				}
+				var race string
+				switch x := r.Intn(3); {
+				case x == 0 || app == "":
+					race = fmt.Sprintf("RACE/%s/%s/NT:%d", trunc, hx.Pick(r, []string{"rev", "read", "trunc", "last"}), nt)
+				case x == 1:
+					race = fmt.Sprintf("RACE/NT:%d/%s/%s", nt, hx.Pick(r, []string{"rev", "read", "sync"}), hx.Pick(r, []string{app, trunc}))
+				default:
+					race = fmt.Sprintf("RACE/%s/append/NT:%d", app, nt)
+				}
+				g.term = nt
+				n := len(h.acts)
+				h.exec(race)
+				g.afterRace(n)
+			})
+		}
 		// a Truncate of the current term when the node is already FOLLOWER (retry / late request), with or without a stream
 		// attached, with or without acknowledged entries: same id as planned, just below the head, or at the head
 		if st == "follower" {
@@ -459,7 +522,11 @@ func (g *gen) step() {
 					h.terms[t] = ti
 				}
 				for int64(len(ti.log)) <= c {
-					ti.log = append(ti.log, ent{0, int64(len(ti.log)), g.fresh()})
+					ft := int64(0) // filler entries keep the leader log term-sorted
+					if n := len(ti.log); n > 0 {
+						ft = ti.log[n-1].term
+					}
+					ti.log = append(ti.log, ent{ft, int64(len(ti.log)), g.fresh()})
 				}
 				g.done[t] = true
 			}
@@ -488,6 +555,26 @@ func (g *gen) step() {
 				}
 			}
 		})
+		if st == "leader" && !g.raced2 {
+			add(1, func() {
+				g.raced2 = true
+				nt := g.term + 2
+				g.term = nt
+				n := len(h.acts)
+				h.exec(fmt.Sprintf("RACE/CW:%d/appendsync/NT:%d", g.fresh(), nt))
+				g.afterRace(n)
+			})
+		}
+		if st == "fenced" && !g.raced2 {
+			add(1, func() {
+				g.raced2 = true
+				nt := g.term + 2
+				g.term = nt
+				n := len(h.acts)
+				h.exec(fmt.Sprintf("RACE/BL:%d/rev/NT:%d", term, nt))
+				g.afterRace(n)
+			})
+		}
 		if st == "leader" && !g.raced {
 			add(1, func() {
 				g.raced = true
@@ -552,7 +639,7 @@ func finish(o *hx.Out, h *H, kindKey string) {
 		// each property reports its own verdicts: C04 the fence/head ones, C03 the ack/truncate ones
 		mine := strings.HasPrefix(sig, "fenced:") || strings.HasPrefix(sig, "newterm:")
 		if *focus == "c03" {
-			mine = strings.HasPrefix(sig, "ack:") || strings.HasPrefix(sig, "truncate:") || strings.HasPrefix(sig, "attach:")
+			mine = strings.HasPrefix(sig, "ack:") || strings.HasPrefix(sig, "truncate:") || strings.HasPrefix(sig, "attach:") || strings.HasPrefix(sig, "restart:")
 		}
 		if !mine {
 			o.Count("other-property-verdict:" + sig)
@@ -596,6 +683,50 @@ func runGenerated(o *hx.Out, r *hx.Rng, steps int) {
 
 func atoi(s string) int64 { v, _ := strconv.ParseInt(s, 10, 64); return v }
 
+// exec runs one action of a schedule (the textual form of the case lines)
+func (h *H) exec(a string) {
+	if strings.HasPrefix(a, "RACE/") {
+		p := strings.Split(a, "/")
+		if len(p) == 4 {
+			h.doRace(p[1], p[2], p[3])
+		}
+		return
+	}
+	f := strings.Split(a, ":")
+	switch f[0] {
+	case "NT":
+		h.doNewTerm(atoi(f[1]))
+	case "TR":
+		h.doTruncate(atoi(f[1]), atoi(f[2]), atoi(f[3]))
+	case "RO":
+		h.doReplicateOpen(int(atoi(f[1])), atoi(f[2]))
+	case "AP":
+		h.doAppend(int(atoi(f[1])), ent{atoi(f[2]), atoi(f[3]), atoi(f[4])}, atoi(f[5]))
+	case "SB": // realised automatically by settle()
+		return
+	case "SE":
+		h.doSyncEnd(int(atoi(f[1])))
+	case "BR":
+		h.doStreamBreak(int(atoi(f[1])))
+	case "SN":
+		h.doSnapshot(int(atoi(f[1])), atoi(f[2]), atoi(f[3]))
+	case "CR":
+		h.doCrashRestart(int(atoi(f[1])))
+	case "BL":
+		h.doBecomeLeader(atoi(f[1]))
+	case "CW":
+		h.doClientWrite(atoi(f[1]))
+	case "NTAP": // NewTerm parked after its wal.Sync, an Append delivered meanwhile
+		h.doNewTermRacingAppend(atoi(f[1]), int(atoi(f[2])), ent{atoi(f[3]), atoi(f[4]), atoi(f[5])})
+	case "NTCW": // NewTerm (leader) parked after its wal.Sync, a client write issued meanwhile
+		h.doNewTermRacingWrite(atoi(f[1]), atoi(f[2]))
+	case "CWNT": // client write stopped before its WAL append, NewTerm, then the append
+		h.doWriteRacingNewTerm(atoi(f[1]), atoi(f[2]))
+	case "LS":
+		h.doLeaderSync()
+	}
+}
+
 func runScript(o *hx.Out, actions string, logs string, key string) {
 	h := newH(o)
 	h.loadLeaderLogs(logs)
@@ -603,39 +734,7 @@ func runScript(o *hx.Out, actions string, logs string, key string) {
 		if h.fatal != "" {
 			break
 		}
-		f := strings.Split(a, ":")
-		switch f[0] {
-		case "NT":
-			h.doNewTerm(atoi(f[1]))
-		case "TR":
-			h.doTruncate(atoi(f[1]), atoi(f[2]), atoi(f[3]))
-		case "RO":
-			h.doReplicateOpen(int(atoi(f[1])), atoi(f[2]))
-		case "AP":
-			h.doAppend(int(atoi(f[1])), ent{atoi(f[2]), atoi(f[3]), atoi(f[4])}, atoi(f[5]))
-		case "SB": // realised automatically by settle()
-			continue
-		case "SE":
-			h.doSyncEnd(int(atoi(f[1])))
-		case "BR":
-			h.doStreamBreak(int(atoi(f[1])))
-		case "SN":
-			h.doSnapshot(int(atoi(f[1])), atoi(f[2]), atoi(f[3]))
-		case "CR":
-			h.doCrashRestart(int(atoi(f[1])))
-		case "BL":
-			h.doBecomeLeader(atoi(f[1]))
-		case "CW":
-			h.doClientWrite(atoi(f[1]))
-		case "NTAP": // NewTerm parked after its wal.Sync, an Append delivered meanwhile
-			h.doNewTermRacingAppend(atoi(f[1]), int(atoi(f[2])), ent{atoi(f[3]), atoi(f[4]), atoi(f[5])})
-		case "NTCW": // NewTerm (leader) parked after its wal.Sync, a client write issued meanwhile
-			h.doNewTermRacingWrite(atoi(f[1]), atoi(f[2]))
-		case "CWNT": // client write stopped before its WAL append, NewTerm, then the append
-			h.doWriteRacingNewTerm(atoi(f[1]), atoi(f[2]))
-		case "LS":
-			h.doLeaderSync()
-		}
+		h.exec(a)
 		h.checkFence(a)
 		h.settle()
 	}
@@ -661,6 +760,14 @@ var builtin = [][2]string{
 	{"NT:2;RO:1:2;AP:1:2:0:1:-1;SE:1;NTAP:4:1:2:1:2;BR:1;RO:2:4;AP:2:4:1:7:-1;SE:2", "2=ok=2:0:1,2:1:2/4=ok=2:0:1,4:1:7"},
 	// ... same for the leader controller: a client write accepted between NewTerm's flush and its critical section
 	{"NT:2;BL:2;CW:1;LS;NTCW:4:2;LS;BL:4;CW:3;LS", "-"},
+	// one handler parked at a WAL call it makes, another request delivered there: Truncate's scan / cut vs NewTerm,
+	// NewTerm's head read vs Append, Append vs NewTerm (the controller lock must cover each handler's check-and-act)
+	{"NT:2;RO:1:2;AP:1:2:0:1:-1;AP:1:2:1:2:-1;AP:1:2:2:3:-1;AP:1:2:3:4:-1;SE:1;BR:1;NT:4;RACE/TR:4:2:1/rev/NT:6;NT:6", "2=ok=2:0:1,2:1:2,2:2:3,2:3:4/4=bad=/6=bad="},
+	{"NT:2;RO:1:2;AP:1:2:0:1:-1;AP:1:2:1:2:-1;AP:1:2:2:3:-1;SE:1;BR:1;NT:4;RACE/TR:4:2:0/read2/NT:6;RACE/TR:6:2:0/trunc/NT:8;NT:8", "2=ok=2:0:1,2:1:2,2:2:3/4=bad=/6=bad=/8=bad="},
+	{"NT:2;RO:1:2;AP:1:2:0:1:-1;SE:1;RACE/NT:4/rev/AP:1:2:1:2:-1;RACE/NT:6/read/TR:4:2:0;BR:1;RO:2:6;RACE/AP:2:6:1:7:-1/append/NT:8;SE:2", "2=ok=2:0:1,2:1:2/4=bad=/6=ok=2:0:1,6:1:7/8=bad="},
+	// restart after a truncation followed by appends of the same size: the log that comes back is the log that was there
+	{"NT:2;RO:1:2;AP:1:2:0:1:-1;AP:1:2:1:2:-1;AP:1:2:2:3:-1;AP:1:2:3:4:-1;AP:1:2:4:5:-1;SE:1;BR:1;NT:4;TR:4:2:1;RO:2:4;AP:2:4:2:21:-1;SE:2;BR:2;CR:0;NT:6;RO:3:6;AP:3:6:3:22:-1;AP:3:6:4:23:-1;SE:3;CR:0;NT:8",
+		"2=ok=2:0:1,2:1:2,2:2:3,2:3:4,2:4:5/4=ok=2:0:1,2:1:2,4:2:21/6=ok=2:0:1,2:1:2,4:2:21,6:3:22,6:4:23/8=bad="},
 	// a Truncate of the same term is refused once the node follows (with a stream, without, after acks)
 	{"NT:2;TR:2:-1:-1;TR:2:-1:-1;RO:1:2;AP:1:2:0:1:-1;AP:1:2:1:2:-1;SE:1;TR:2:2:0;BR:1;TR:2:2:0;TR:2:-1:-1;RO:2:2;AP:2:2:2:3:-1;SE:2",
 		"2=ok=2:0:1,2:1:2,2:2:3"},
